@@ -4,7 +4,8 @@ import re
 import anchors
 from core import BA, call_matches, callee_paths, op_local, op_place, op_const, const_int, place_fields, field_writes
 from rules import common, dirt
-from rules.C06 import backward_direct, primary_target_rule
+from rules.C06 import backward_direct
+from rules.C01 import primary_target_rule
 
 EXPLANATION = (
     "Static branch-exclusivity and dominance rules: redo-stamp marks 'changed' (+ new checksum) on the changed side and "
@@ -28,7 +29,9 @@ def run(ctx):
     ctx.rule("R3.8", "an uncertain (NeedTargets) verdict of a dependency is accumulated, for plain and for checksummed parents alike; Clean only if nothing uncertain was collected")
     ctx.rule("R3.6", "redo-unlocked: a non-success status of either phase ends the process with that status before the next phase")
 
-    St = prog.one(r"@bin::stamp::run")
+    # (a closure the command builds and runs itself - e.g. the body handed to a shared "open transaction, look up the
+    # parent target, run, commit" helper - is part of the command)
+    St = common.splice_local_closures(prog, prog.one(r"@bin::stamp::run"))
     sba = BA.of(St)
     ne = sba.switches_on_call(r".*core::cmp::PartialEq.*::(ne|eq)|core::cmp::impls::<impl .*>::(ne|eq)")
     chg = None
@@ -52,41 +55,53 @@ def run(ctx):
     saves = sba.calls(r"state::File::save")
     commits = sba.calls(r"state::ProcessTransaction::commit")
     gens = sba.calls(r"state::File::set_generated")
-    found = None
-    for sw in sorted(sba.live):
-        bs = sba.bool_switch(sw)
-        if not bs or not setc or not setk:
-            continue
-        t_t, f_t = bs[0], bs[1]
-        if sba.edge_dominates((sw, t_t), setc[0]) and sba.edge_dominates((sw, f_t), setk[0]):
-            found = (sw, t_t, f_t, bs[2])
-        elif sba.edge_dominates((sw, f_t), setc[0]) and sba.edge_dominates((sw, t_t), setk[0]):
-            found = (sw, f_t, t_t, bs[2])
-    if ctx.ob("R3.1", "%s|changed-switch" % St.key, found is not None and len(setc) == 1 and len(setk) == 1 and len(setsum) == 1, where=St.span,
-              detail="switch separating set_changed from set_checked located" if found else "no branch separates set_changed from set_checked: both or neither are applied"):
-        sw, c_t, u_t, cond = found
-        # the condition derives from comparing the new sum with f.checksum()
-        kind, info = cond
+    # the branch(es) that separate the two markings: a switch one edge of which lies on every feasible path to
+    # set_changed and another on every feasible path to set_checked. The outcome of the comparison may be carried to
+    # the markings in a bool, in a two-variant enum (`match verdict`), .. : then both the comparison's own branch and
+    # the dispatch on the carried value separate them (feasible paths, core.FA: the carried value decides the dispatch)
+    from core import FA
+    sfa = FA.of(St)
+    seps = []
+    if len(setc) == 1 and len(setk) == 1:
+        for sw in sorted(sba.live):
+            if St.blocks[sw]["term"]["t"] != "switch" or St.is_cleanup(sw):
+                continue
+            tg = sorted(set(St.succ(sw)))
+            for a in tg:
+                for b in tg:
+                    if a != b and sfa.edge_dominates((sw, a), setc[0]) and sfa.edge_dominates((sw, b), setk[0]):
+                        seps.append((sw, a, b))
+    if ctx.ob("R3.1", "%s|changed-switch" % St.key, bool(seps) and len(setc) == 1 and len(setk) == 1 and len(setsum) == 1, where=St.span,
+              detail="switch separating set_changed from set_checked located" if seps else "no branch separates set_changed from set_checked: both or neither are applied"):
+        # the condition derives from comparing the new sum with f.checksum(): one of the separating branches is on the
+        # result of an (in)equality call one operand of which goes back to File::checksum()
         derives = False
-        if kind == "call":
-            t = info[1]
+        for (sw, c_t, u_t) in seps:
+            bs = sba.bool_switch(sw)
+            if not bs or bs[2][0] != "call":
+                continue
+            t = bs[2][1][1]
+            if not any(p_.endswith("::ne") or p_.endswith("::eq") for p_ in callee_paths(t)):
+                continue
             for a in t["args"]:
                 if op_local(a) is None:
                     continue
                 if any(o[0] == "call" and call_matches(o[2], r"state::File::checksum") for o in backward_direct(St, op_local(a))[1]):
                     derives = True
-            neq = any(p.endswith("::ne") for p in callee_paths(t))
-        elif kind == "place":
-            derives = False
+        sw = seps[-1][0]
         ctx.ob("R3.1", "%s|condition-compares-checksum" % St.key, derives, where=ctx.where(St, sw), detail="the branch condition compares the new sum with File::checksum()")
-        cside = sba.reach_incl([c_t], avoid=frozenset(saves))
-        uside = sba.reach_incl([u_t], avoid=frozenset(saves))
-        ok = (setc[0] in cside and setsum[0] in cside and setk[0] not in cside) and (setk[0] in uside and setc[0] not in uside and setsum[0] not in uside)
+        ok = True
+        for (s_, c_t, u_t) in seps:
+            cside = sfa.reach_incl([c_t], avoid=frozenset(saves))
+            uside = sfa.reach_incl([u_t], avoid=frozenset(saves))
+            ok = ok and (setc[0] in cside and setsum[0] in cside and setk[0] not in cside) and (setk[0] in uside and setc[0] not in uside and setsum[0] not in uside)
         ctx.ob("R3.1", "%s|exclusive-marking" % St.key, ok, where=ctx.where(St, sw),
                detail="changed side: set_changed+set_checksum, no set_checked; unchanged side: set_checked only" if ok else "changed/checked marking is not exclusive")
-        common.mpt(ctx, "R3.1", "%s|save-then-commit" % St.key, St, [sw], sba.returns() and common.ok_returns(St), saves, "both sides reach save", "a side skips save", incl=False)
+        common.mpt(ctx, "R3.1", "%s|save-then-commit" % St.key, St, [s_ for (s_, _, _) in seps], sba.returns() and common.ok_returns(St), saves, "both sides reach save", "a side skips save", incl=False)
         common.mpt(ctx, "R3.1", "%s|commit-after-save" % St.key, St, saves, common.ok_returns(St), commits, "commit follows save before Ok", "Ok is returned without committing", incl=False)
-        ctx.ob("R3.1", "%s|set_generated-first" % St.key, bool(gens) and sba.dominates(gens[0], sw), where=ctx.where(St, sw), detail="set_generated precedes the changed/unchanged branch")
+        # set_generated lies on every path to either marking (it precedes the changed/unchanged dispatch)
+        pg = sba.path([0], setc + setk, avoid=frozenset(gens), incl=True) if gens else [0]
+        ctx.ob("R3.1", "%s|set_generated-first" % St.key, bool(gens) and pg is None, where=ctx.where(St, sw), detail="set_generated precedes the changed/unchanged branch")
         # the new checksum stored is the computed one
         t = St.blocks[setsum[0]]["term"]
         sl, org, _ = backward_direct(St, op_local(t["args"][1]))
@@ -163,7 +178,8 @@ def run(ctx):
     inh = prog.one(r"env::Env::inherit")
     iba = BA.of(inh)
     clears = [i for (b, i) in env_setters(prog, "REDO_NO_OOB") if b.key == inh.key and env_set_value(b, i) == ""]
-    oks = [i for i, _, st_ in anchors.agg_sites(inh, r"core::result::Result") if st_["rv"]["variant"] == "Ok"]
+    # the Ok values inherit() itself returns (an Ok built by a Result-returning helper spliced into it feeds a `?`)
+    oks = common.returned_ok_blocks(inh)
     p_ = iba.path([0], oks, avoid=frozenset(clears), incl=True) if oks else [0]
     ctx.ob("R3.7", "Env::inherit|REDO_NO_OOB-not-inherited", bool(clears) and p_ is None, where=inh.span,
            detail="REDO_NO_OOB is reset before every Ok return of Env::inherit" if clears and p_ is None else
